@@ -346,8 +346,32 @@ fn apply_updates(uni: &Uni, rt: &tokio::runtime::Runtime, zone: &Zone, upds: &[(
         rt.block_on(async {
             let mut up = match ZoneUpdater::new(zone.clone()).await { Ok(u) => u, Err(_) => return "ErrNew".to_string() };
             let mut cur = c0.clone();
+            let mut da_in_batch = false;
+            let mut touched: BTreeSet<(String, String)> = BTreeSet::new();
+            let mut touch_count: BTreeMap<(String, String), u32> = BTreeMap::new();
+            let to_shadow = |c: &Content| -> BTreeMap<(String, String), BTreeSet<String>> { c.iter().map(|(k, v)| (k.clone(), v.1.iter().cloned().collect())).collect() };
+            let mut shadow = to_shadow(&c0);
+            let mut shadow_cleared = false;
+            let mut illformed: BTreeSet<(String, String)> = BTreeSet::new();
             for (_, s, u) in upds {
                 let commit = s.starts_with("BD.") || s.starts_with("F.");
+                match u {
+                    ZoneUpdate::DeleteAllRecords => da_in_batch = true,
+                    ZoneUpdate::AddRecord(r) | ZoneUpdate::DeleteRecord(r) => {
+                        let k = (r.owner().to_string().to_ascii_lowercase(), r.rtype().to_string());
+                        *touch_count.entry(k.clone()).or_insert(0u32) += 1;
+                        touched.insert(k.clone());
+                        // shadow of the working copy as sets: a delete of a record that is not there or an
+                        // add of one that is (only faulted streams do that) makes the edit history of this
+                        // RRset ill-formed; its diff entries are not judged
+                        if da_in_batch && !shadow_cleared { shadow.clear(); shadow_cleared = true; }
+                        let e = shadow.entry(k.clone()).or_default();
+                        let ds = r.data().to_string();
+                        let ok = if matches!(u, ZoneUpdate::AddRecord(_)) { e.insert(ds) } else { e.remove(&ds) };
+                        if !ok { illformed.insert(k); }
+                    }
+                    _ => {}
+                }
                 let res = up.apply(u.clone()).await;
                 match res {
                     Err(domain::zonetree::update::Error::Finished) => return "Err3".to_string(),
@@ -363,17 +387,27 @@ fn apply_updates(uni: &Uni, rt: &tokio::runtime::Runtime, zone: &Zone, upds: &[(
                             let want = dd(&apply_diff(&cur, &d));
                             let now = dd(&now);
                             if want != now {
-                                let had_da = upds.iter().any(|x| x.1 == "DA");
+                                // classes of the three known defects are decided by their root cause on the
+                                // history of this batch; anything else is `diff_not_applicable_other`
+                                let removed_keys: BTreeSet<(String, String)> = d.removed.keys().map(|(o, t)| (o.to_string().to_ascii_lowercase(), t.to_string())).collect();
+                                let subset = |a: &Vec<String>, b: &Vec<String>| a.iter().all(|x| b.contains(x));
                                 let mut classes: BTreeSet<&'static str> = BTreeSet::new();
                                 let keys: BTreeSet<&(String, String)> = want.keys().chain(now.keys()).collect();
                                 for k in keys {
                                     let (w, n, o) = (want.get(k), now.get(k), cur.get(k));
                                     if w == n { continue; }
-                                    classes.insert(match (w, n, o) {
-                                        (Some(_), None, Some(_)) if had_da => "diff_misses_delete_all",
-                                        (_, Some(n), Some(o)) if n.0 != o.0 => "diff_stale_after_ttl_change",
-                                        (_, Some(_), Some(_)) => "diff_stale_after_reorder",
-                                        _ => "diff_not_applicable",
+                                    if illformed.contains(k) { continue; }
+                                    classes.insert(match (n, o) {
+                                        // removals done through remove_all: RRset published, gone, never touched by a record op
+                                        (None, Some(_)) if da_in_batch && !touched.contains(k) => "diff_misses_delete_all",
+                                        // TTL of the RRset changed and one data set contains the other (the arm that
+                                        // compares data only records nothing, or leaves an earlier entry)
+                                        (Some(n), Some(o)) if n.0 != o.0 && (subset(&o.1, &n.1) || subset(&n.1, &o.1)) => "diff_stale_after_ttl_change",
+                                        // same TTL, every published record is still there (nothing to remove), touched
+                                        // more than once, and the diff still carries a removal from an earlier call
+                                        (Some(n), Some(o)) if n.0 == o.0 && subset(&o.1, &n.1) && removed_keys.contains(k)
+                                            && touch_count.get(k).cloned().unwrap_or(0) >= 2 => "diff_stale_after_reorder",
+                                        _ => "diff_not_applicable_other",
                                     });
                                 }
                                 for cls in classes {
@@ -381,6 +415,8 @@ fn apply_updates(uni: &Uni, rt: &tokio::runtime::Runtime, zone: &Zone, upds: &[(
                                 }
                             }
                         }
+                        if commit { da_in_batch = false; touched.clear(); touch_count.clear(); illformed.clear(); shadow_cleared = false; }
+                        if commit { shadow = to_shadow(&now); }
                         cur = now.clone();
                         seen.push(now);
                     }
@@ -431,6 +467,15 @@ fn ixfr_records(chain: &[Version]) -> Vec<AR> {
 
 fn mutate(r: &mut Rng, uni: &Uni, v: &Version) -> Version {
     let mut keys = v.keys.clone();
+    // an IXFR delete section that empties an RRset of several records, one record at a time
+    if r.chance(1, 3) {
+        let sets: [&[u32]; 2] = [&[0, 1], &[5, 6, 7]];
+        let g = *r.pick(&sets);
+        if g.iter().filter(|k| keys.contains(k)).count() >= 2 || r.chance(1, 2) {
+            let partial = r.chance(1, 4);
+            for (i, k) in g.iter().enumerate() { if !(partial && i == 0) { keys.remove(k); } }
+        }
+    }
     let n = 1 + r.below(4);
     for _ in 0..n {
         let k = r.below(uni.n() as u64) as u32;
@@ -515,7 +560,7 @@ fn run_stream(cx: &mut Ctx, label: &str, msgs: &[AMsg], comp: u8, z0: &Version, 
     cx.chk(ap.changed_outside_commit.is_none(), "partial_version_visible", &apcase,
         &format!("{}: readers saw a change after {:?}", label, ap.changed_outside_commit));
     for (cls, d) in &ap.diff_bad { cx.chk(false, cls, &apcase, d); }
-    if ap.n_diffs > 0 && ap.diff_bad.is_empty() { cx.chk(true, "diff_not_applicable", &apcase, ""); }
+    if ap.n_diffs > 0 && ap.diff_bad.is_empty() { cx.chk(true, "diff_not_applicable_other", &apcase, ""); }
     cx.diffs += ap.n_diffs;
     let n = run.upds.len();
     (run.st, ap, n)
@@ -560,6 +605,50 @@ fn valid_case(cx: &mut Ctx, r: &mut Rng, mode: u8, chain: &[Version], z0: &Versi
     if mode == 1 { for v in chain { versions.push(spec_content(uni, Some(v.soa), &v.keys)); } } else { versions.push(want.clone()); }
     let bad = ap.seen_contents.iter().find(|c| !versions.contains(c));
     cx.chk(bad.is_none(), "partial_version_visible", &case, &format!("readers saw {:?}", bad));
+}
+
+/// An IXFR along `chain` is aborted (updater dropped without Finished) after every number of
+/// updates; then a complete IXFR from the version visible at that moment to a target (the end of
+/// the chain, or `other`) is applied with a new updater.  Readers must see exactly a version of
+/// the chain after the abort and exactly the target after the second transfer.
+fn abort_case(cx: &mut Ctx, r: &mut Rng, chain: &[Version], other: Option<&Version>, comp: u8) {
+    let uni = cx.uni;
+    let recs = ixfr_records(chain);
+    let msgs1 = package(r, 251, vec![recs]);
+    let wire1: Vec<Vec<u8>> = msgs1.iter().map(|m| build_msg(uni, m, comp)).collect();
+    let run1 = run_interp(uni, &wire1);
+    if run1.st != St::Done { cx.chk(false, "ixfr_content_mismatch", "abort_case", "first stream did not complete"); return; }
+    let z0abs = { let mut z = vec![AR::Soa(chain[0].soa)]; z.extend(chain[0].keys.iter().map(|k| AR::Other(*k))); z };
+    for p in 1..run1.upds.len() {
+        let first = &run1.upds[..p];
+        let n_bd = first.iter().filter(|u| u.1.starts_with("BD.")).count();
+        let idx = if n_bd == 0 { 0 } else { n_bd - 1 };
+        let vis = &chain[idx];
+        let target = match other { Some(o) => o.clone(), None => chain.last().unwrap().clone() };
+        if target.soa == vis.soa { continue; }
+        // second transfer: from the visible version
+        let chain2: Vec<Version> = match other { Some(o) => vec![vis.clone(), o.clone()], None => chain[idx..].to_vec() };
+        let msgs2 = package(r, 251, vec![ixfr_records(&chain2)]);
+        let wire2: Vec<Vec<u8>> = msgs2.iter().map(|m| build_msg(uni, m, comp)).collect();
+        let run2 = run_interp(uni, &wire2);
+        let t1 = first.iter().map(|u| u.1.clone()).collect::<Vec<_>>().join(",");
+        let t2 = run2.upds.iter().map(|u| u.1.clone()).collect::<Vec<_>>().join(",");
+        let case = format!("apm {} {} {}", abs_zone_str(&z0abs), t1, if t2.is_empty() { "-".to_string() } else { t2 });
+        cx.out.begin(&case);
+        let zone = build_zone(uni, Some(chain[0].soa), &chain[0].keys);
+        let a1 = apply_updates(uni, cx.rt, &zone, first);      // the updater is dropped at the end: abort
+        let a2 = apply_updates(uni, cx.rt, &zone, &run2.upds);
+        let obs = if a1.result == "Ok" && a2.result == "Ok" { format!("Ok {} {}", abs_zone_str(&a1.final_abs), abs_zone_str(&a2.final_abs)) }
+                  else if a1.result == "Panic" || a2.result == "Panic" { "Panic".to_string() } else { format!("{}/{}", a1.result, a2.result) };
+        cx.out.case(&case, &obs, true, "apm");
+        cx.chk(a1.result != "Panic" && a2.result != "Panic", "panic_xfr", &case, "ZoneUpdater panicked");
+        cx.chk(a1.final_content == spec_content(uni, Some(vis.soa), &vis.keys), "partial_version_visible", &case,
+            &format!("after the abort at update {} readers see {:?}", p, a1.final_content));
+        cx.chk(run2.st == St::Done && a2.fin && a2.final_content == spec_content(uni, Some(target.soa), &target.keys),
+            "aborted_transfer_leaks_into_next", &case,
+            &format!("after abort at update {} and a complete IXFR {}->{} readers see {:?}", p, vis.soa, target.soa, a2.final_content));
+        for (cls, d) in a1.diff_bad.iter().chain(a2.diff_bad.iter()) { cx.chk(false, cls, &case, d); }
+    }
 }
 
 const HDR_FAULTS: [&str; 12] = ["rcode", "tc", "qr0", "opcode", "ancount0", "nscount", "qd0_first", "qd2", "wrong_question", "no_question_type", "first_not_soa", "ancount_gt"];
@@ -707,6 +796,17 @@ fn main() {
         valid_case(&mut cx, &mut r, 2, &[v11.clone()], &v10, true, &[1], comp);
         valid_case(&mut cx, &mut r, 1, &[v10.clone(), v11.clone()], &v10, true, &[1, 4], comp);
     }
+    // IXFR delete sections that empty RRsets of two and three records one record at a time
+    {
+        let wa = Version { soa: 60, keys: ks(&[0, 1, 5, 6, 7, 9]) };
+        let wb = Version { soa: 62, keys: ks(&[9]) };
+        let wc = Version { soa: 64, keys: ks(&[0, 5, 9, 11]) };
+        for comp in 0..3u8 {
+            valid_case(&mut cx, &mut r, 1, &[wa.clone(), wb.clone()], &wa, true, &[], comp);
+            valid_case(&mut cx, &mut r, 1, &[wa.clone(), wb.clone(), wc.clone()], &wa, true, &[4], comp);
+            valid_case(&mut cx, &mut r, 1, &[wa.clone(), wc.clone()], &wa, true, &[], comp);
+        }
+    }
     // single SOA IXFR answer ("up to date" / retry over TCP)
     {
         let msgs = vec![AMsg::good(true, true, 251, vec![AR::Soa(20)])];
@@ -739,7 +839,8 @@ fn main() {
         if !cx.out.wants(i) { continue; }
         let mode = r.below(3) as u8;
         let mut fr = r.fork();
-        let base = Version { soa: 2 * (1 + fr.below(1000) as u32) + fr.below(2) as u32, keys: rand_keys(&mut fr, &uni, 10) };
+        let mut base = Version { soa: 2 * (1 + fr.below(1000) as u32) + fr.below(2) as u32, keys: rand_keys(&mut fr, &uni, 10) };
+        if fr.chance(1, 2) { for k in [0u32, 1, 5, 6, 7] { base.keys.insert(k); } }
         let comp = fr.below(3) as u8;
         match mode {
             1 => {
@@ -758,6 +859,27 @@ fn main() {
                 let z0 = if has { z0 } else { Version { soa: 0, keys: BTreeSet::new() } };
                 valid_case(&mut cx, &mut fr, mode, &[base], &z0, has, &cuts, comp);
             }
+        }
+    }
+
+    // ---- aborted transfers followed by another transfer ----
+    {
+        let wa = Version { soa: 60, keys: ks(&[0, 1, 5, 6, 7, 9]) };
+        let wb = Version { soa: 62, keys: ks(&[0, 5, 9, 11]) };
+        let wc = Version { soa: 64, keys: ks(&[0, 5, 12, 15]) };
+        let wd = Version { soa: 70, keys: ks(&[1, 5, 9, 13]) };
+        abort_case(&mut cx, &mut r, &[wa.clone(), wb.clone(), wc.clone()], Some(&wd), 1);
+        abort_case(&mut cx, &mut r, &[wa.clone(), wb.clone(), wc.clone()], None, 2);
+        let n_abort = (if a.thorough { 150 } else { 10 }) * a.scale;
+        for _ in 0..n_abort {
+            let mut fr = r.fork();
+            let mut base = Version { soa: 2 * (1 + fr.below(1000) as u32), keys: rand_keys(&mut fr, &uni, 8) };
+            if fr.chance(1, 2) { for k in [0u32, 1, 5, 6, 7] { base.keys.insert(k); } }
+            let mut chain = vec![base];
+            for _ in 0..(2 + fr.below(3)) { let nx = mutate(&mut fr, &uni, chain.last().unwrap()); chain.push(nx); }
+            let other = if fr.chance(1, 2) { Some(Version { soa: chain.last().unwrap().soa + 10, keys: rand_keys(&mut fr, &uni, 8) }) } else { None };
+            let comp = fr.below(3) as u8;
+            abort_case(&mut cx, &mut fr, &chain, other.as_ref(), comp);
         }
     }
 
